@@ -15,14 +15,17 @@ def model(run, K, schemes=SCHEMES, name=None, timeout=1500, chain=1):
 
 def chains(run, chain=1):
     """read the chains out of Vers.tla by asking TLC to print them (single source of truth)"""
-    mod = "---- MODULE MC_Chains ----\nEXTENDS Vers, Json\nASSUME PrintT(<<\"VEC\", ToJson([s \\in AllSchemes |-> TheChain(s)])>>)\nASSUME PrintT(<<\"PREPOS\", ToJson([p |-> PypiPrePos2])>>)\n====\n"
+    mod = "---- MODULE MC_Chains ----\nEXTENDS Vers, Json\nASSUME PrintT(<<\"VEC\", ToJson([s \\in AllSchemes |-> TheChain(s)])>>)\nASSUME PrintT(<<\"PREPOS\", ToJson([p |-> ThePrePos])>>)\n====\n"
     cfg = vlib.cfg_consts(K=1, Schemes={"npm"}, ChainNo=chain) + "INIT VInit\nNEXT VNext\nCHECK_DEADLOCK FALSE\n"
     lines, st, dt = vlib.tlc(run, "MC_Chains", cfg, name="chains%d" % chain, workers=1, timeout=300, extra_files={"MC_Chains.tla": mod}, count=False)
     global PYPI_PREPOS2
-    PYPI_PREPOS2 = vlib.tagged(lines, "PREPOS")[0]["p"]
+    PREPOS[chain] = vlib.tagged(lines, "PREPOS")[0]["p"]
+    if chain == 2:
+        PYPI_PREPOS2 = PREPOS[chain]
     return vlib.tagged(lines, "VEC")[0]
 
 PYPI_PREPOS2 = []
+PREPOS = {}          # chain family -> positions holding a pypi pre-/dev-release
 
 def check_chains(run, exe, ch):
     jobs = [{"k": "matrix", "eco": ECO_OF.get(s, s), "tag": s, "texts": ch[s], "part": []} for s in SCHEMES]
